@@ -5,6 +5,9 @@ use autosar_data_specification::{
     AttributeName, AttributeSpec, AutosarVersion, ContentMode, ElementMultiplicity, ElementName,
 };
 use fxhash::FxHashMap;
+#[cfg(autosar_data_verif)]
+use crate::verif_lock::RwLock;
+#[cfg(not(autosar_data_verif))]
 use parking_lot::RwLock;
 use smallvec::SmallVec;
 use std::collections::HashSet;
